@@ -72,7 +72,8 @@ def run(ctx):
     for it, (pname, apo) in enumerate(profs.items()):
         for pt in tab["lattice"]:
             fs = setgv(it)
-            n = rnd.choice([256, 512] + ([2048] if T else []))
+            n = rnd.choice([256, 512, 255, 333] + ([2048] if T else []))
+            v = rnd.choice([1.0, 0.8, 0.5])                  # visibility: immaterial when the design is given through vdneff
             x = optical_signal(np.random.RandomState(it).randn(n) + 0j)
             kLv = val(pt["kLI"]) / val(tab["profiles"][pname])
             route = rnd.choice(["fc", "landa_D"])
@@ -94,6 +95,7 @@ def run(ctx):
         kLv = math.pi * vdn * Lm / lD
         F_ = rnd.choice([0, 0, 5.0, -12.0])
         apo = rnd.choice(["uniform", "rcos", "gaussian", "parabolic"])
+        v = [1.0, 0.8, 0.5, 0.9][it % 4]
         Hs = {}
         for cen in ("fc", "landa_D"):
             for ln, lv in (("kL", kLv), ("L", Lm), ("N", Np)):
@@ -108,8 +110,9 @@ def run(ctx):
     # ---- 4. random designs: passivity, filter identity, energy, shape
     for it in range(300 if T else 20):
         fs = setgv(it)
-        n = rnd.choice([256, 512, 1024] + ([4096] if T else []))
+        n = rnd.choice([256, 512, 1024, 255, 777] + ([4096] if T else []))
         npol = 1 + it % 2
+        v = rnd.choice([1.0, 0.8, 0.5])
         rs = np.random.RandomState(100 + it)
         f = rs.randn(npol, n) + 1j * rs.randn(npol, n)
         x = protect(optical_signal(f if npol == 2 else f[0]))
@@ -130,6 +133,30 @@ def run(ctx):
         events.append({"kind": "shape", "same": bool(type(out) is optical_signal and out.signal.shape == x.signal.shape and H.shape == (n,))})
         meta.append(("shape", npol))
         ctx.case(("random", apo if isinstance(apo, str) else "callable", F_ != 0, npol, n, it % 3), {"kL": kLv, "vdneff": vdn, "F": F_, "detuning/fs": det / fs})
+    # ---- 5. uniform unchirped gratings: the whole spectrum against the closed form
+    for it in range(120 if T else 10):
+        fs = setgv(it)
+        n = rnd.choice([256, 255, 512, 777])
+        v = rnd.choice([1.0, 0.8, 0.5])
+        x = optical_signal(np.random.RandomState(400 + it).randn(n) + 0j)
+        vdn, kLv = 10 ** rnd.uniform(-5, -3), rnd.uniform(0.1, 8)
+        det = rnd.uniform(-0.2, 0.2) * fs
+        lD = C0 / (gv.f0 + det)
+        route = it % 3
+        kap = math.pi * vdn / lD
+        Lm = kLv / kap
+        kw = [dict(fc=gv.f0 + det, kL=kLv), dict(landa_D=lD, L=Lm), dict(fc=gv.f0 + det, L=Lm)][route]
+        with deadline(300):
+            _, H = FBG(x, neff=neff, v=v, vdneff=vdn, print_params=False, retH=True, **kw)
+        fgrid = np.fft.fftshift(np.fft.fftfreq(n)) * fs - det
+        d = 2 * math.pi * neff * fgrid / C0
+        g = np.sqrt((kap ** 2 - d ** 2).astype(complex))
+        Rcf = (np.sinh(g * Lm) ** 2 / (np.cosh(g * Lm) ** 2 - d ** 2 / kap ** 2)).real
+        dev = float(np.max(np.abs(np.abs(H) ** 2 - Rcf))) if H.shape == Rcf.shape and np.all(np.isfinite(H)) else 1.0
+        events.append({"kind": "spectrum", "dev_ppm": int(round(dev * 1e6))})
+        meta.append(("spectrum", route))
+        ctx.case(("spectrum", route, n % 2, v, kLv > 4), {"uniform grating": {"kL": kLv, "vdneff": vdn, "v": v, "n": n, "max deviation": dev}})
+    v = 1.0
     # history independence: same grating and record length under another sampling rate before
     for it, (cfgA, cfgB) in enumerate([(dict(sps=16, R=10e9), dict(sps=8, R=25e9)), (dict(sps=32, R=12.5e9), dict(sps=16, R=10e9))]):
         xs = np.random.RandomState(300 + it).randn(256) + 0j
@@ -150,7 +177,8 @@ def run(ctx):
     if raised != "TypeError":
         ctx.violation("non-optical-input-accepted", "FBG accepted an electrical_signal", {})
     gv.clean()
-    ctx.assumptions.append("the off-Bragg spectrum sinh^2/(cosh^2 - d^2/k^2) needs a transcendental oracle per bin and is not decided; the Bragg point is decided "
+    ctx.assumptions.append("the off-Bragg spectrum sinh^2/(cosh^2 - d^2/k^2) needs a transcendental oracle per bin: the harness evaluates the closed form in "
+                           "floating point and TLC judges the maximal deviation (1.5e-2, accuracy of RK45 at its default tolerances); the Bragg point is decided "
                            "on the tanh lattice (atanh(3/5)=ln2 ...), with profile integrals as Sci constants of Grating.tla")
     for idx, clause in ctx.validate("GratingTrace", events, note="FBG contract"):
         m = meta[idx - 1]
